@@ -196,6 +196,11 @@ func modelBigOp(fc *FnCtx, op string, args []Val, rt types.Type) (*Val, error) {
 	fc.vc.trust("math/big.Int operations are mathematical integer operations on the ghost value of the receiver/arguments")
 	z := args[0].T
 	fc.safe("nil", mkNot(mkEq(z, "0")), "nil *big.Int receiver")
+	for i := 1; i < len(args); i++ {
+		if _, isPtr := args[i].Typ.Underlying().(*types.Pointer); isPtr && op != "SetString" {
+			fc.safe("nil", mkNot(mkEq(args[i].T, "0")), "nil *big.Int argument")
+		}
+	}
 	get := func(i int) string { return fc.bigVal(args[i].T) }
 	var v string
 	switch op {
